@@ -38,7 +38,8 @@ type Session struct {
 	Target string `json:"target"` // engine | pool
 	Gated  bool   `json:"gated"`
 	Burst  bool   `json:"burst"`
-	Hooks  bool   `json:"hooks"` // record the result-map lock status at every result write
+	Silent bool   `json:"silent"` // no observer events, no steering (race-detector runs)
+	Hooks  bool   `json:"hooks"`  // record the result-map lock status at every result write
 	Rules  []Rule `json:"rules"`
 	Calls  []Call `json:"calls"`
 }
@@ -421,6 +422,7 @@ func runSession(s *Session, quiet time.Duration, seed int64, callTimeout time.Du
 		}
 		o := obs.New(s.Gated, quiet, seed+int64(s.ID)*131+int64(ci))
 		o.Burst = s.Burst
+		o.Silent = s.Silent
 		ts := map[string]bool{}
 		for _, n := range c.TagSet {
 			ts[n] = true
